@@ -1305,6 +1305,11 @@ func runLtrFeatHistory(r *h.Report, d *h.Driver, cfg ltrFeatCfg, ops []string) {
 	results := map[string][]api.FeatureLocalInterface{} // "t/r" -> what the calls returned
 	maxID := 0
 	var done []string
+	// the implementation's own record of the two observers of Spine/FeatureMore.lean: the numbers handed out by the
+	// generator in the order of time (NextFeatureId directly, or the number of a feature nobody was handed before),
+	// and the completed calls as op:type-asked:role-asked:number-handed-back
+	var implDrawn, implAns []string
+	curOp := ""
 	overlapped := false
 	parkWait := 5 * time.Second
 	if cfg.serialised {
@@ -1358,6 +1363,9 @@ func runLtrFeatHistory(r *h.Report, d *h.Driver, cfg ltrFeatCfg, ops []string) {
 			return
 		}
 		id := int(*f.Address().Feature)
+		if isNew {
+			implDrawn = append(implDrawn, strconv.Itoa(id))
+		}
 		if isNew && id <= maxID {
 			r.SpecFail("C07/feature-number-not-fresh", done, fmt.Sprintf("new feature got number %d, numbers up to %d were handed out before", id, maxID))
 		}
@@ -1366,6 +1374,7 @@ func runLtrFeatHistory(r *h.Report, d *h.Driver, cfg ltrFeatCfg, ops []string) {
 		}
 	}
 	asked := func(f api.FeatureLocalInterface, t, ro int) {
+		implAns = append(implAns, fmt.Sprintf("%s:%d:%d:%s", curOp, t, ro, idOf(f)))
 		if f == nil || f.Type() != ltrTypes[t] || f.Role() != ltrRoles[ro] {
 			r.SpecFail("C07/get-or-add-wrong-feature", done, fmt.Sprintf("GetOrAddFeature(%s,%s) returned feature %s of another type or role", ltrTypes[t], ltrRoles[ro], idOf(f)))
 		}
@@ -1386,6 +1395,9 @@ func runLtrFeatHistory(r *h.Report, d *h.Driver, cfg ltrFeatCfg, ops []string) {
 			continue
 		}
 		var impl, line, kind string
+		if len(f) > 1 {
+			curOp = f[1]
+		}
 		switch f[0] {
 		case "get":
 			a := ltrAtoi(f[1:])
@@ -1409,6 +1421,7 @@ func runLtrFeatHistory(r *h.Report, d *h.Driver, cfg ltrFeatCfg, ops []string) {
 			} else {
 				maxID = id
 			}
+			implDrawn = append(implDrawn, strconv.Itoa(id))
 			impl, line, kind = strconv.Itoa(id), "next", "nextid"
 		case "lookup":
 			a := ltrAtoi(f[1:])
@@ -1509,6 +1522,24 @@ func runLtrFeatHistory(r *h.Report, d *h.Driver, cfg ltrFeatCfg, ops []string) {
 			return
 		}
 		r.Eval("feats", "")
+		// the observers the schedule theorems are stated with (c07_numbers_never_reused, c07_same_feature_asked,
+		// c07_handed_what_was_asked): the model's lists against the implementation's own record
+		join := func(l []string) string {
+			if len(l) == 0 {
+				return "."
+			}
+			return strings.Join(l, ",")
+		}
+		if want := d.Ask("drawn"); join(implDrawn) != want {
+			r.Mismatch(append(done, "drawn"), join(implDrawn), want, "numbers handed out by the generator, in the order of time")
+			return
+		}
+		r.Eval("drawn", "")
+		if want := d.Ask("answers"); join(implAns) != want {
+			r.Mismatch(append(done, "answers"), join(implAns), want, "completed calls: op:type asked:role asked:number handed back")
+			return
+		}
+		r.Eval("answers", "")
 	}
 	r.Traces++
 }
@@ -1753,6 +1784,56 @@ func TestLocalTree(t *testing.T) {
 				r.Eval(fmt.Sprintf("schedule:%d-calls", b.k), "")
 			}
 		}
+	}
+
+	// random schedules of four to six overlapping calls (the exhaustive blocks above stop at three): a random
+	// interleaving of their lookup / create events, most calls for one and the same type and role, NextFeatureId calls
+	// and calls nothing overlaps in between
+	for i, n := 0, h.Scale(120, 1200); i < n; i++ {
+		k := 4 + rng.Intn(3)
+		var calls [][2]int
+		hot := [2]int{rng.Intn(2), rng.Intn(2)}
+		for j := 0; j < k; j++ {
+			if rng.Intn(3) > 0 {
+				calls = append(calls, hot)
+			} else {
+				calls = append(calls, [2]int{rng.Intn(3), rng.Intn(3)})
+			}
+		}
+		var ops []string
+		if rng.Intn(3) == 0 {
+			ops = append(ops, fmt.Sprintf("get 50 %d %d", rng.Intn(2), rng.Intn(2)))
+		}
+		if cfg.serialised {
+			for _, j := range rng.Perm(k) {
+				ops = append(ops, fmt.Sprintf("lookup %d %d %d", j+1, calls[j][0], calls[j][1]), fmt.Sprintf("create %d", j+1))
+			}
+		} else {
+			looked, created := make([]bool, k), make([]bool, k)
+			for left := 2 * k; left > 0; {
+				switch x := rng.Intn(10); {
+				case x == 0:
+					ops = append(ops, "nextid")
+					continue
+				case x == 1:
+					ops = append(ops, fmt.Sprintf("get %d %d %d", 60+left, hot[0], hot[1]))
+					continue
+				}
+				j := rng.Intn(k)
+				if !looked[j] {
+					looked[j] = true
+					ops = append(ops, fmt.Sprintf("lookup %d %d %d", j+1, calls[j][0], calls[j][1]))
+					left--
+				} else if !created[j] {
+					created[j] = true
+					ops = append(ops, fmt.Sprintf("create %d", j+1))
+					left--
+				}
+			}
+		}
+		ops = append(ops, fmt.Sprintf("get 99 %d %d", hot[0], hot[1]), "nextid")
+		runLtrFeatHistory(r, df, cfg, ops)
+		r.Eval(fmt.Sprintf("schedule:%d-calls-random", k), "")
 	}
 
 	// ---- minimise witnesses of unlisted spec failures and of the first mismatch
